@@ -57,8 +57,14 @@ func c19Bytes(t *rapid.T, label string, limit int) model.Bytes {
 	}
 }
 
-func c19Gen(t *rapid.T) c19In {
-	in := c19In{Builder: rapid.SampledFrom(c19Builders).Draw(t, "builder")}
+func c19Gen(t *rapid.T) c19In { return c19GenFor(t, "") }
+
+// c19GenFor draws the arguments for the given builder (any builder when the name is empty).
+func c19GenFor(t *rapid.T, builder string) c19In {
+	in := c19In{Builder: builder}
+	if builder == "" {
+		in.Builder = rapid.SampledFrom(c19Builders).Draw(t, "builder")
+	}
 	if rapid.Bool().Draw(t, "withprior") {
 		in.Prior = gen.Payloads(t, gen.Opts{MaxPayloads: 4, NoBig: true})
 	}
@@ -69,6 +75,9 @@ func c19Gen(t *rapid.T) c19In {
 	in.Bool1, in.Bool2 = rapid.Bool().Draw(t, "bool1"), rapid.Bool().Draw(t, "bool2")
 	for i := range in.IP {
 		in.IP[i] = rapid.Uint8().Draw(t, "ip")
+	}
+	if rapid.Bool().Draw(t, "ip.special") {
+		copy(in.IP[:], gen.Addr(t, "ip.addr", 4)) // loopback, link-local, private, multicast, broadcast, ... addresses
 	}
 	switch in.Builder {
 	case "Notification":
@@ -203,6 +212,143 @@ func c19Oracle(in c19In) probe.Outcome {
 		}
 	}
 	return o
+}
+
+// c19Result: what one top-level builder call is expected to have done.
+type c19Result struct {
+	want     *model.Payload     // expected model of the appended payload
+	berr     error              // error returned by the builder (those that return one)
+	oversize bool               // an argument exceeds what a wire field can hold: an error is REQUIRED (builder or Encode)
+	mayError bool               // not encodable on its own (no children yet / empty data): an error is allowed
+	returned message.IKEPayload // the payload the builder returned (those that return one)
+	labels   []string
+}
+
+// c19Apply makes the builder call described by in on the container c.
+func c19Apply(c *message.IKEPayloadContainer, in c19In, cp func(b model.Bytes) []byte) (r c19Result, err error) {
+	var want *model.Payload
+	var berr error
+	oversize, mayError := false, false
+	var returned message.IKEPayload
+	var labels []string
+	ip := fmt.Sprintf("%d.%d.%d.%d", in.IP[0], in.IP[1], in.IP[2], in.IP[3])
+	err = probe.Try(func() error {
+		switch in.Builder {
+		case "Notification":
+			c.BuildNotification(in.U8a, in.U16a, cp(in.B1), cp(in.B2))
+			want = &model.Payload{Kind: model.KNotify, Notify: &model.Notify{Protocol: in.U8a, Type: in.U16a, SPI: in.B1, Data: in.B2}}
+			oversize = len(in.B1) > 255 || 8+len(in.B1)+len(in.B2) > 65535
+		case "Certificate":
+			c.BuildCertificate(in.U8a, cp(in.B1))
+			want = &model.Payload{Kind: model.KCERT, Cert: &model.Cert{Encoding: in.U8a, Data: in.B1}}
+			oversize, mayError = 5+len(in.B1) > 65535, len(in.B1) == 0
+		case "Encrypted":
+			returned = c.BuildEncrypted(message.IkePayloadType(in.U8a), cp(in.B1))
+			want = &model.Payload{Kind: model.KRaw, Raw: &model.Raw{Type: 46, Body: in.B1}, Data: model.Bytes{in.U8a}}
+		case "KeyExchange":
+			// the builder's name carries a typo ("BUildKeyExchange"); look it up by name so that a rename to the obvious
+			// spelling does not stop the harness from compiling
+			mv := reflect.ValueOf(c).MethodByName("BUildKeyExchange")
+			if !mv.IsValid() {
+				mv = reflect.ValueOf(c).MethodByName("BuildKeyExchange")
+			}
+			if !mv.IsValid() {
+				return fmt.Errorf("HARNESS: no key exchange builder found")
+			}
+			mv.Call([]reflect.Value{reflect.ValueOf(in.U16a), reflect.ValueOf(cp(in.B1))})
+			want = &model.Payload{Kind: model.KKE, KE: &model.KE{Group: in.U16a, Data: in.B1}}
+			oversize, mayError = 8+len(in.B1) > 65535, len(in.B1) == 0
+		case "IDi":
+			c.BuildIdentificationInitiator(in.U8a, cp(in.B1))
+			want = &model.Payload{Kind: model.KIDi, ID: &model.ID{Type: in.U8a, Data: in.B1}}
+			oversize, mayError = 8+len(in.B1) > 65535, len(in.B1) == 0
+		case "IDr":
+			c.BuildIdentificationResponder(in.U8a, cp(in.B1))
+			want = &model.Payload{Kind: model.KIDr, ID: &model.ID{Type: in.U8a, Data: in.B1}}
+			oversize, mayError = 8+len(in.B1) > 65535, len(in.B1) == 0
+		case "Authentication":
+			c.BuildAuthentication(in.U8a, cp(in.B1))
+			want = &model.Payload{Kind: model.KAUTH, Auth: &model.Auth{Method: in.U8a, Data: in.B1}}
+			oversize, mayError = 8+len(in.B1) > 65535, len(in.B1) == 0
+		case "Configuration":
+			returned = c.BuildConfiguration(in.U8a)
+			want = &model.Payload{Kind: model.KCP, CP: &model.CP{Type: in.U8a}}
+			mayError = true // no attributes yet: not encodable on its own
+		case "Nonce":
+			c.BuildNonce(cp(in.B1))
+			want = &model.Payload{Kind: model.KNonce, Data: in.B1}
+			oversize = 4+len(in.B1) > 65535
+		case "TSi":
+			returned = c.BuildTrafficSelectorInitiator()
+			want = &model.Payload{Kind: model.KTSi, TS: &model.TS{}}
+			mayError = true
+		case "TSr":
+			returned = c.BuildTrafficSelectorResponder()
+			want = &model.Payload{Kind: model.KTSr, TS: &model.TS{}}
+			mayError = true
+		case "SecurityAssociation":
+			returned = c.BuildSecurityAssociation()
+			want = &model.Payload{Kind: model.KSA, SA: &model.SA{}}
+		case "Delete":
+			size := uint8(0)
+			if in.Bool1 {
+				size = 4
+			}
+			count := uint16(len(in.U32s))
+			// the count argument is an argument of its own: when it disagrees with the list the payload still holds what it
+			// was given (and cannot be encoded) - it is not cut or padded to fit
+			if in.Bool1 && len(in.U32s) > 0 && in.U8c%4 >= 2 {
+				if in.U8c%4 == 2 {
+					count += 1 + uint16(in.U8b%3)
+				} else {
+					count -= 1 + uint16(in.U8b)%count
+				}
+				mayError = true
+				labels = append(labels, "delete:count!=len(spis)")
+			}
+			c.BuildDeletePayload(in.U8a, size, count, append([]uint32(nil), in.U32s...))
+			want = &model.Payload{Kind: model.KDelete, Delete: &model.Delete{Protocol: in.U8a, SPISize: size, Count: count, SPIs: in.U32s}}
+		case "EAP":
+			returned = c.BuildEAP(eap.EapCode(in.U8a), in.U8b)
+			want = &model.Payload{Kind: model.KEAP, EAP: &model.EAP{Code: in.U8a, Identifier: in.U8b, Kind: model.ENone}}
+		case "EAPSuccess":
+			c.BuildEAPSuccess(in.U8a)
+			want = &model.Payload{Kind: model.KEAP, EAP: &model.EAP{Code: 3, Identifier: in.U8a, Kind: model.ENone}}
+		case "EAPfailure":
+			c.BuildEAPfailure(in.U8a)
+			want = &model.Payload{Kind: model.KEAP, EAP: &model.EAP{Code: 4, Identifier: in.U8a, Kind: model.ENone}}
+		case "EAP5GStart":
+			c.BuildEAP5GStart(in.U8a)
+			e := ref.EAP5GStart(in.U8a)
+			want = &model.Payload{Kind: model.KEAP, EAP: &e}
+		case "EAP5GNAS":
+			berr = c.BuildEAP5GNAS(in.U8a, cp(in.B1))
+			e := ref.EAP5GNAS(in.U8a, in.B1)
+			want = &model.Payload{Kind: model.KEAP, EAP: &e}
+			oversize = len(in.B1) > 65535 || 4+model.EAPSize(e) > 65535
+		case "Notify5G_QOS_INFO":
+			berr = c.BuildNotify5G_QOS_INFO(in.U8a, cp(in.B1), in.Bool1, in.Bool2, in.U8b)
+			want = &model.Payload{Kind: model.KNotify, Notify: &model.Notify{Protocol: 0, Type: ref.Notify5GQoS, Data: ref.QoSInfo(in.U8a, in.B1, in.Bool1, in.Bool2, in.U8b)}}
+			n := 4 + len(in.B1)
+			if in.Bool2 {
+				n++
+			}
+			oversize = len(in.B1) > 255 || n > 255
+		case "NotifyNAS_IP4_ADDRESS":
+			c.BuildNotifyNAS_IP4_ADDRESS(ip)
+			want = &model.Payload{Kind: model.KNotify, Notify: &model.Notify{Type: ref.NotifyNASIP4, Data: in.IP[:]}}
+		case "NotifyUP_IP4_ADDRESS":
+			c.BuildNotifyUP_IP4_ADDRESS(ip)
+			want = &model.Payload{Kind: model.KNotify, Notify: &model.Notify{Type: ref.NotifyUPIP4, Data: in.IP[:]}}
+		case "NotifyNAS_TCP_PORT":
+			c.BuildNotifyNAS_TCP_PORT(in.U16a)
+			want = &model.Payload{Kind: model.KNotify, Notify: &model.Notify{Type: ref.NotifyNASPort, Data: model.Bytes{byte(in.U16a >> 8), byte(in.U16a)}}}
+		default:
+			return fmt.Errorf("HARNESS: builder %q", in.Builder)
+		}
+		return nil
+	})
+	return c19Result{want, berr, oversize, mayError, returned, labels}, err
 }
 
 func c19Oracle1(in c19In, cp func(b model.Bytes) []byte) probe.Outcome {
@@ -480,128 +626,9 @@ func c19Oracle1(in c19In, cp func(b model.Bytes) []byte) probe.Outcome {
 		return probe.Fail("building prior contents: %v", err)
 	}
 	held := append(message.IKEPayloadContainer(nil), c...)
-	var want *model.Payload // expected model of the appended payload
-	var berr error          // error returned by the builder (those that return one)
-	oversize := false       // an argument exceeds what a wire field can hold: an error is REQUIRED (builder or Encode)
-	mayError := false       // not encodable on its own (no children yet / empty data): an error is allowed
-	var returned message.IKEPayload
-	ip := fmt.Sprintf("%d.%d.%d.%d", in.IP[0], in.IP[1], in.IP[2], in.IP[3])
-	perr := probe.Try(func() error {
-		switch in.Builder {
-		case "Notification":
-			c.BuildNotification(in.U8a, in.U16a, cp(in.B1), cp(in.B2))
-			want = &model.Payload{Kind: model.KNotify, Notify: &model.Notify{Protocol: in.U8a, Type: in.U16a, SPI: in.B1, Data: in.B2}}
-			oversize = len(in.B1) > 255 || 8+len(in.B1)+len(in.B2) > 65535
-		case "Certificate":
-			c.BuildCertificate(in.U8a, cp(in.B1))
-			want = &model.Payload{Kind: model.KCERT, Cert: &model.Cert{Encoding: in.U8a, Data: in.B1}}
-			oversize, mayError = 5+len(in.B1) > 65535, len(in.B1) == 0
-		case "Encrypted":
-			returned = c.BuildEncrypted(message.IkePayloadType(in.U8a), cp(in.B1))
-			want = &model.Payload{Kind: model.KRaw, Raw: &model.Raw{Type: 46, Body: in.B1}, Data: model.Bytes{in.U8a}}
-		case "KeyExchange":
-			// the builder's name carries a typo ("BUildKeyExchange"); look it up by name so that a rename to the obvious
-			// spelling does not stop the harness from compiling
-			mv := reflect.ValueOf(&c).MethodByName("BUildKeyExchange")
-			if !mv.IsValid() {
-				mv = reflect.ValueOf(&c).MethodByName("BuildKeyExchange")
-			}
-			if !mv.IsValid() {
-				return fmt.Errorf("HARNESS: no key exchange builder found")
-			}
-			mv.Call([]reflect.Value{reflect.ValueOf(in.U16a), reflect.ValueOf(cp(in.B1))})
-			want = &model.Payload{Kind: model.KKE, KE: &model.KE{Group: in.U16a, Data: in.B1}}
-			oversize, mayError = 8+len(in.B1) > 65535, len(in.B1) == 0
-		case "IDi":
-			c.BuildIdentificationInitiator(in.U8a, cp(in.B1))
-			want = &model.Payload{Kind: model.KIDi, ID: &model.ID{Type: in.U8a, Data: in.B1}}
-			oversize, mayError = 8+len(in.B1) > 65535, len(in.B1) == 0
-		case "IDr":
-			c.BuildIdentificationResponder(in.U8a, cp(in.B1))
-			want = &model.Payload{Kind: model.KIDr, ID: &model.ID{Type: in.U8a, Data: in.B1}}
-			oversize, mayError = 8+len(in.B1) > 65535, len(in.B1) == 0
-		case "Authentication":
-			c.BuildAuthentication(in.U8a, cp(in.B1))
-			want = &model.Payload{Kind: model.KAUTH, Auth: &model.Auth{Method: in.U8a, Data: in.B1}}
-			oversize, mayError = 8+len(in.B1) > 65535, len(in.B1) == 0
-		case "Configuration":
-			returned = c.BuildConfiguration(in.U8a)
-			want = &model.Payload{Kind: model.KCP, CP: &model.CP{Type: in.U8a}}
-			mayError = true // no attributes yet: not encodable on its own
-		case "Nonce":
-			c.BuildNonce(cp(in.B1))
-			want = &model.Payload{Kind: model.KNonce, Data: in.B1}
-			oversize = 4+len(in.B1) > 65535
-		case "TSi":
-			returned = c.BuildTrafficSelectorInitiator()
-			want = &model.Payload{Kind: model.KTSi, TS: &model.TS{}}
-			mayError = true
-		case "TSr":
-			returned = c.BuildTrafficSelectorResponder()
-			want = &model.Payload{Kind: model.KTSr, TS: &model.TS{}}
-			mayError = true
-		case "SecurityAssociation":
-			returned = c.BuildSecurityAssociation()
-			want = &model.Payload{Kind: model.KSA, SA: &model.SA{}}
-		case "Delete":
-			size := uint8(0)
-			if in.Bool1 {
-				size = 4
-			}
-			count := uint16(len(in.U32s))
-			// the count argument is an argument of its own: when it disagrees with the list the payload still holds what it
-			// was given (and cannot be encoded) - it is not cut or padded to fit
-			if in.Bool1 && len(in.U32s) > 0 && in.U8c%4 >= 2 {
-				if in.U8c%4 == 2 {
-					count += 1 + uint16(in.U8b%3)
-				} else {
-					count -= 1 + uint16(in.U8b)%count
-				}
-				mayError = true
-				labels = append(labels, "delete:count!=len(spis)")
-			}
-			c.BuildDeletePayload(in.U8a, size, count, append([]uint32(nil), in.U32s...))
-			want = &model.Payload{Kind: model.KDelete, Delete: &model.Delete{Protocol: in.U8a, SPISize: size, Count: count, SPIs: in.U32s}}
-		case "EAP":
-			returned = c.BuildEAP(eap.EapCode(in.U8a), in.U8b)
-			want = &model.Payload{Kind: model.KEAP, EAP: &model.EAP{Code: in.U8a, Identifier: in.U8b, Kind: model.ENone}}
-		case "EAPSuccess":
-			c.BuildEAPSuccess(in.U8a)
-			want = &model.Payload{Kind: model.KEAP, EAP: &model.EAP{Code: 3, Identifier: in.U8a, Kind: model.ENone}}
-		case "EAPfailure":
-			c.BuildEAPfailure(in.U8a)
-			want = &model.Payload{Kind: model.KEAP, EAP: &model.EAP{Code: 4, Identifier: in.U8a, Kind: model.ENone}}
-		case "EAP5GStart":
-			c.BuildEAP5GStart(in.U8a)
-			e := ref.EAP5GStart(in.U8a)
-			want = &model.Payload{Kind: model.KEAP, EAP: &e}
-		case "EAP5GNAS":
-			berr = c.BuildEAP5GNAS(in.U8a, cp(in.B1))
-			e := ref.EAP5GNAS(in.U8a, in.B1)
-			want = &model.Payload{Kind: model.KEAP, EAP: &e}
-			oversize = len(in.B1) > 65535 || 4+model.EAPSize(e) > 65535
-		case "Notify5G_QOS_INFO":
-			berr = c.BuildNotify5G_QOS_INFO(in.U8a, cp(in.B1), in.Bool1, in.Bool2, in.U8b)
-			want = &model.Payload{Kind: model.KNotify, Notify: &model.Notify{Protocol: 0, Type: ref.Notify5GQoS, Data: ref.QoSInfo(in.U8a, in.B1, in.Bool1, in.Bool2, in.U8b)}}
-			n := 4 + len(in.B1)
-			if in.Bool2 {
-				n++
-			}
-			oversize = len(in.B1) > 255 || n > 255
-		case "NotifyNAS_IP4_ADDRESS":
-			c.BuildNotifyNAS_IP4_ADDRESS(ip)
-			want = &model.Payload{Kind: model.KNotify, Notify: &model.Notify{Type: ref.NotifyNASIP4, Data: in.IP[:]}}
-		case "NotifyUP_IP4_ADDRESS":
-			c.BuildNotifyUP_IP4_ADDRESS(ip)
-			want = &model.Payload{Kind: model.KNotify, Notify: &model.Notify{Type: ref.NotifyUPIP4, Data: in.IP[:]}}
-		case "NotifyNAS_TCP_PORT":
-			c.BuildNotifyNAS_TCP_PORT(in.U16a)
-			want = &model.Payload{Kind: model.KNotify, Notify: &model.Notify{Type: ref.NotifyNASPort, Data: model.Bytes{byte(in.U16a >> 8), byte(in.U16a)}}}
-		default:
-			return fmt.Errorf("HARNESS: builder %q", in.Builder)
-		}
-		return nil
-	})
+	res, perr := c19Apply(&c, in, cp)
+	want, berr, oversize, mayError, returned := res.want, res.berr, res.oversize, res.mayError, res.returned
+	labels = append(labels, res.labels...)
 	if perr != nil {
 		return probe.Fail("%s: %v", in.Builder, perr)
 	}
@@ -793,6 +820,123 @@ var c19Reset = probe.Define("C19", "reset-then-build", func(t *rapid.T) c19Reset
 	return probe.OK(true, "reset:"+in.Container)
 })
 
+// A sequence of builder calls on one container (or on two containers alternately): after every call EVERY payload built so
+// far - not only the newest - still holds the arguments of ITS call, and encodes to them at the end. Steps repeat earlier
+// steps (A B A B: the NAS and the user-plane address of one UE, then of the next), and large arguments follow large arguments.
+type c19SeqIn struct {
+	Steps         []c19In `json:"steps"`
+	TwoContainers bool    `json:"two_containers"`
+}
+
+var c19SeqBuilders = []string{"Notification", "Certificate", "KeyExchange", "IDi", "IDr", "Authentication", "Nonce", "Delete", "EAP", "EAPSuccess", "EAPfailure",
+	"EAP5GStart", "EAP5GNAS", "Notify5G_QOS_INFO", "NotifyNAS_IP4_ADDRESS", "NotifyUP_IP4_ADDRESS", "NotifyNAS_TCP_PORT"}
+
+var c19Sequence = probe.Define("C19", "sequence", func(t *rapid.T) c19SeqIn {
+	var pool []c19In
+	kind := rapid.IntRange(0, 3).Draw(t, "seq.kind")
+	for i := rapid.IntRange(2, 4).Draw(t, "seq.pool"); i > 0; i-- {
+		var x c19In
+		switch kind {
+		case 0:
+			x = c19GenFor(t, rapid.SampledFrom([]string{"NotifyNAS_IP4_ADDRESS", "NotifyUP_IP4_ADDRESS"}).Draw(t, "seq.ipbuilder"))
+		case 1:
+			x = c19GenFor(t, "EAP5GNAS")
+			x.B1 = gen.Fill(t, "nas", rapid.SampledFrom([]int{100, 4096, 32760, 32764, 32768, 40000, 65000, 65514}).Draw(t, "seq.nas.n"))
+		default:
+			x = c19GenFor(t, rapid.SampledFrom(c19SeqBuilders).Draw(t, "seq.builder"))
+		}
+		x.Prior = nil
+		pool = append(pool, x)
+	}
+	in := c19SeqIn{TwoContainers: rapid.Bool().Draw(t, "seq.two")}
+	n := rapid.IntRange(2, 10).Draw(t, "seq.n")
+	alternate := rapid.Bool().Draw(t, "seq.alternate")
+	for i := 0; i < n; i++ {
+		k := i % len(pool)
+		if !alternate {
+			k = rapid.IntRange(0, len(pool)-1).Draw(t, "seq.pick")
+		}
+		in.Steps = append(in.Steps, pool[k])
+	}
+	return in
+}, func(in c19SeqIn) probe.Outcome {
+	cp := func(b model.Bytes) []byte { return append([]byte(nil), b...) }
+	cs := make([]message.IKEPayloadContainer, 2)
+	type built struct {
+		c, at int
+		res   c19Result
+		step  int
+	}
+	var all []built
+	verify := func(after int, wire bool) error {
+		for _, b := range all {
+			if b.at >= len(cs[b.c]) {
+				return fmt.Errorf("after step %d the payload built by step %d is gone", after, b.step)
+			}
+			p := cs[b.c][b.at]
+			got, err := bridge.FromLibPayload(p)
+			if err != nil {
+				return fmt.Errorf("HARNESS: %v", err)
+			}
+			if !bytes.Equal(model.JSON(got.Normalize()), model.JSON(b.res.want.Normalize())) {
+				return fmt.Errorf("after step %d (%s) the payload built by step %d (%s) no longer holds the arguments of its call:\n got  %s\n want %s", after, in.Steps[after-1].Builder, b.step,
+					in.Steps[b.step-1].Builder, model.Clip(model.JSON(got.Normalize())), model.Clip(model.JSON(b.res.want.Normalize())))
+			}
+			if wire && !b.res.oversize && !b.res.mayError {
+				w, err := c19Wire(p)
+				if err != nil {
+					return fmt.Errorf("at the end the payload built by step %d (%s) does not encode: %v", b.step, in.Steps[b.step-1].Builder, err)
+				}
+				if !bytes.Equal(model.JSON(w.Normalize()), model.JSON(b.res.want.Normalize())) {
+					return fmt.Errorf("at the end the payload built by step %d (%s) encodes to other fields than the arguments of its call", b.step, in.Steps[b.step-1].Builder)
+				}
+			}
+		}
+		return nil
+	}
+	labels := []string{fmt.Sprintf("steps:%d", len(in.Steps))}
+	for i, st := range in.Steps {
+		k := 0
+		if in.TwoContainers {
+			k = i % 2
+		}
+		before := len(cs[k])
+		res, err := c19Apply(&cs[k], st, cp)
+		if err != nil {
+			return probe.Fail("step %d (%s): %v", i+1, st.Builder, err)
+		}
+		switch {
+		case res.berr != nil:
+			if !res.oversize {
+				return probe.Fail("step %d (%s) returned an error for arguments within the limits: %v", i+1, st.Builder, res.berr)
+			}
+			if len(cs[k]) != before {
+				return probe.Fail("step %d (%s) returned an error but still appended a payload", i+1, st.Builder)
+			}
+		case len(cs[k]) != before+1:
+			return probe.Fail("step %d (%s) appended %d payloads, want exactly 1", i+1, st.Builder, len(cs[k])-before)
+		default:
+			all = append(all, built{k, before, res, i + 1})
+		}
+		if err := verify(i+1, i == len(in.Steps)-1); err != nil {
+			return probe.Fail("%v", err)
+		}
+		labels = append(labels, "builder:"+st.Builder)
+	}
+	repeats := false
+	for i := range in.Steps {
+		for j := 0; j < i-1; j++ {
+			if in.Steps[i].Builder == in.Steps[j].Builder && bytes.Equal(model.JSON(in.Steps[i]), model.JSON(in.Steps[j])) {
+				repeats = true
+			}
+		}
+	}
+	if repeats {
+		labels = append(labels, "a-step-repeated-after-another")
+	}
+	return probe.Outcome{NonTrivial: len(all) >= 2, Labels: labels}
+})
+
 func TestC19(t *testing.T) {
 	c := probe.NewCtx(t, "C19")
 	for _, k := range c19Containers {
@@ -802,4 +946,14 @@ func TestC19(t *testing.T) {
 	}
 	c19Reset.Run(c, t, c.N(300, 2000))
 	c19Build.Run(c, t, c.N(5000, 40000))
+	// the special-purpose IPv4 blocks through both address helpers
+	for i, pre := range [][]byte{{169, 254, 1, 2}, {169, 254, 169, 254}, {192, 168, 0, 1}, {172, 16, 0, 1}, {100, 64, 0, 1}, {192, 0, 2, 1}, {198, 18, 0, 1}, {198, 51, 100, 1}, {203, 0, 113, 1},
+		{192, 88, 99, 1}, {192, 0, 0, 1}, {224, 0, 0, 1}, {239, 255, 255, 250}, {240, 0, 0, 1}, {255, 255, 255, 255}, {0, 0, 0, 0}, {0, 0, 0, 1}, {127, 0, 0, 1}, {127, 255, 255, 255}, {10, 0, 0, 1}, {1, 1, 1, 1}} {
+		for _, b := range []string{"NotifyNAS_IP4_ADDRESS", "NotifyUP_IP4_ADDRESS"} {
+			in := c19In{Builder: b, U8a: uint8(i)}
+			copy(in.IP[:], pre)
+			c19Build.Eval(c, in)
+		}
+	}
+	c19Sequence.Run(c, t, c.N(600, 6000))
 }
